@@ -32,6 +32,14 @@ def strategy(tier):
     return strategy_(tier)
 
 
+CYCLE = "harmless-change-reported-by-default:typedef_rename-in-own-cycle"
+
+
+def typedef_reaches_itself(m, name):
+    idx = M.type_index(m)
+    return name in idx and name in M.reach_from_names(m, M.direct_deps(idx[name]))
+
+
 def run_case(case, cx):
     m, m2, info, cfg = case["model"], case["mutant"], case["info"], case["cfg"]
     if m2 is None:
@@ -52,6 +60,13 @@ def run_case(case, cx):
             cx.violation("crash:" + cbuild.crash_key(x), x.brief())
             return
     if r.rc != 0:
+        if info["kind"] == "typedef_rename" and typedef_reaches_itself(m, info["type"]):
+            # known finding: has_harmless_name_change() wants the two underlying types to compare equal, but when the
+            # typedef's underlying type reaches the typedef itself (td1 = st0 (*)(st3*, st0), st3 { td1 *m1; }) they differ
+            # by that very rename, the typedef_diff gets no category and is reported.  Outside such a cycle a reported
+            # rename keeps its own key.
+            cx.violation(CYCLE, det)
+            return
         cx.violation("harmless-change-reported-by-default:" + info["kind"], det)
         return
     if h.rc & R.STATUS_ERROR or not h.rc & R.STATUS_CHANGE:
